@@ -140,3 +140,23 @@ Theorem C15_vi_roundtrip :
   forall (n : N) (rest : bytes), n < 2 ^ 64 -> vi_dec (vi_enc n ++ rest) = (n, len (vi_enc n)).
 Proof. exact vi_roundtrip. Qed.
 Print Assumptions C15_vi_roundtrip.
+
+(* builder histories: a reused TupleBuilder behaves as a fresh one (all cells, all operations) *)
+Theorem C15_builder_reuse_is_fresh :
+  forall (target : N) (n : nat) (ops1 : list bop) (r : bop) (ops2 : list bop),
+    is_reset r = true ->
+    bs_run target n (bs_init n) (ops1 ++ r :: ops2)
+    = bs_run target n (bs_init n) (ops1 ++ [r]) ++ bs_run target n (bs_init n) ops2.
+Proof. exact builder_reuse_is_fresh. Qed.
+Print Assumptions C15_builder_reuse_is_fresh.
+
+(* every tuple produced along any history of plain values is NewTuple of exactly
+   the fields put since the last Build / BuildPrefix / Recycle.  Full statement
+   (also adaptive values) needs "no column put twice between resets" because
+   tb.inlineSize also counts overwritten puts: not proved. *)
+Theorem C15_builder_history_canonical_partial :
+  forall (target : N) (n : nat) (ops : list bop),
+    forallb plain_op ops = true ->
+    bs_run target n (bs_init n) ops = spec_outputs target n [] ops.
+Proof. exact builder_history_canonical. Qed.
+Print Assumptions C15_builder_history_canonical_partial.
